@@ -174,7 +174,7 @@ def make_items(chk: Check, nops: list, npool: int, thorough: bool, hists: list) 
         items.append(history_to_item(f"sim_par{i}", h, nops, True))
     # (d) line-granularity preemption: two threads build and use codecs from cold caches
     pairs = [(0, 0), (0, 1), (0, 2), (5, 6), (7, 8), (3, 4), (9, 10), (12, 13), (2, 0), (7, 7)]
-    pairs += [(rng.randrange(npool), rng.randrange(npool)) for _ in range(20 if thorough else 4)]
+    pairs += [(rng.randrange(npool - 2), rng.randrange(npool - 2)) for _ in range(20 if thorough else 4)]
     per_pair = 260 if thorough else 34
     for a, b in pairs:
         pa = [("w", a, 0, 0), ("r", a, 0, 0), ("w", a, 1, 0)]
@@ -184,6 +184,16 @@ def make_items(chk: Check, nops: list, npool: int, thorough: bool, hists: list) 
             runs = [rng.randrange(1, 900 if d == 1 else 400) for _ in range(d)]
             items.append({"id": f"sched{a}_{b}_{j}", "programs": [pa, pb] if j % 2 == 0 else [pb, pa],
                           "runs": runs})
+    # (d') the same-named twin classes, in both creation orders, sequentially and concurrently
+    tw = [i for i in range(npool - 2, npool)]
+    for a, b in ((tw[0], tw[1]), (tw[1], tw[0])):
+        items.append({"id": f"twin{a}_{b}", "programs": [[("w", a, 0, 0), ("w", b, 0, 0), ("r", a, 1, 0), ("r", b, 1, 0),
+                                                          ("w", a, 1, 0), ("w", b, 1, 0)]]})
+    # (d'') cold-start sweep on a class whose tagged struct has no explicit default (both threads need the
+    # implicit-default machinery at once)
+    for k in range(1, 700 if thorough else 500, 1 if thorough else 4):
+        items.append({"id": f"cold{k}", "programs": [[("w", 9, 0, 0), ("r", 9, 1, 0)], [("r", 9, 0, 0), ("w", 9, 1, 0)]],
+                      "runs": [k]})
     # (e) exhaustive single-preemption sweep on the model's pair (A with nested B vs B)
     for k in range(1, 1200 if thorough else 420, 1 if thorough else 3):
         items.append({"id": f"sweep{k}", "programs": [[("w", 0, 0, 0), ("r", 0, 1, 0)], [("w", 2, 1, 0), ("w", 0, 1, 0)]],
